@@ -96,6 +96,13 @@ func (f *Frame) evalCall(st *State, call *ast.CallExpr) []Val {
 		f.c.dropped[key] = true
 		return f.havocResults(st, call)
 	}
+	if f.top && f.contract != nil {
+		for _, a := range f.contract.Asserts {
+			if a.Anchor == "call:"+fn.Name() {
+				f.assertAtCall(st, call, fn, recvExpr, a)
+			}
+		}
+	}
 	if f.forcedInline(fn) {
 		if src := f.c.w.funcs[fn.Origin()]; src != nil {
 			if rs, ok := f.tryInline(st, call, fn, src, recvExpr); ok {
@@ -116,6 +123,36 @@ func (f *Frame) evalCall(st *State, call *ast.CallExpr) []Val {
 		}
 	}
 	return f.callUnknown(st, call, fn, "")
+}
+
+// assertAtCall proves a contract's `assert at call:<callee> [label] expr` at this call site. The
+// expression may mention the caller's variables in scope and the callee's parameter names (bound to
+// the actual arguments).
+func (f *Frame) assertAtCall(st *State, call *ast.CallExpr, fn *types.Func, recvExpr ast.Expr, a AssertAt) {
+	// evaluate the arguments on a copy, without disturbing obligation numbering
+	tmp := st.fork()
+	nObl := len(f.c.obls)
+	saved := map[string]int{}
+	for k, v := range f.c.counters {
+		saved[k] = v
+	}
+	args := f.bindArgs(tmp, call, fn, recvExpr)
+	f.c.obls = f.c.obls[:nObl]
+	f.c.counters = saved
+	env := f.loopSpecEnv(st)
+	for _, ba := range args {
+		if ba.name != "" && ba.name != "_" {
+			env.names[ba.name] = ba.val
+		}
+	}
+	k := f.c.counters["assert:"+a.Clause.Label]
+	f.c.counters["assert:"+a.Clause.Label] = k + 1
+	func() {
+		defer f.specGuard(call, "assert at "+a.Anchor)
+		t := f.specBool(st, a.Clause.Expr, env)
+		f.oblige(st, "assert", fmt.Sprintf("%s@%s#%d", a.Clause.Label, fn.Name(), k), t, call.Pos(), a.Clause.Src)
+		st.assume(t)
+	}()
 }
 
 // forcedInline: the contract of the function under verification lists this callee under `inline`.
@@ -508,6 +545,21 @@ func (f *Frame) bindArgs(st *State, call *ast.CallExpr, fn *types.Func, recvExpr
 	var out []boundArg
 	if recv := sig.Recv(); recv != nil && recvExpr != nil {
 		rv := f.eval(st, recvExpr)
+		// promoted method: walk the implicit embedded-field path to the actual receiver
+		if sx, ok := ast.Unparen(call.Fun).(*ast.SelectorExpr); ok {
+			if s := f.info.Selections[sx]; s != nil && len(s.Index()) > 1 {
+				for _, fi := range s.Index()[:len(s.Index())-1] {
+					if _, isPtr := rv.Ty.Underlying().(*types.Pointer); isPtr {
+						rv = f.deref(st, rv, call)
+					}
+					stt, isStruct := rv.Ty.Underlying().(*types.Struct)
+					if !isStruct {
+						f.unsupported(call, "promoted method through non-struct %v", rv.Ty)
+					}
+					rv = f.fieldOf(rv, stt.Field(fi).Name(), call)
+				}
+			}
+		}
 		_, wantPtr := recv.Type().Underlying().(*types.Pointer)
 		_, havePtr := rv.Ty.Underlying().(*types.Pointer)
 		if _, isIfc := recv.Type().Underlying().(*types.Interface); isIfc {
@@ -727,6 +779,13 @@ func (f *Frame) callByContract(st *State, call *ast.CallExpr, fn *types.Func, ct
 					continue
 				}
 			}
+			if sl, isSl := a.val.Ty.Underlying().(*types.Slice); isSl {
+				// the callee writes elements of the caller's slice: same header, arbitrary new contents
+				so := f.c.sorts.SortOf(a.val.Ty)
+				na := f.c.fresh("post_"+a.name+"_arr", fmt.Sprintf("(Array Int %s)", f.c.sorts.SortOf(sl.Elem())))
+				post.names[a.name] = Val{T: fmt.Sprintf("(mk_%s %s (%s.off %s) (%s.len %s) (%s.cap %s))", so, na, so, a.val.T, so, a.val.T, so, a.val.T), Ty: a.val.Ty}
+				continue
+			}
 			nv := f.havoc(st, "post_"+a.name, a.val.Ty)
 			if _, isPtr := a.val.Ty.Underlying().(*types.Pointer); isPtr && !isBigInt(a.val.Ty) {
 				so := f.c.sorts.SortOf(a.val.Ty)
@@ -788,6 +847,12 @@ func (f *Frame) writeBackArg(st *State, a boundArg, nv Val) {
 		f.assign(st, a.expr, f.deref(st, nv, a.expr))
 		return
 	}
+	if _, isSl := nv.Ty.Underlying().(*types.Slice); isSl {
+		// elements written by the callee: propagate into the expression the slice was taken from
+		// (possibly a slice expression x[a:b] of a larger slice or array)
+		f.writeBackSlice(st, a.expr, nv)
+		return
+	}
 	if f.isLvalue(a.expr) {
 		cur := f.typeOf(a.expr)
 		if f.c.sorts.SortOf(cur) == f.c.sorts.SortOf(nv.Ty) {
@@ -842,7 +907,7 @@ func (f *Frame) tryInline(st *State, call *ast.CallExpr, fn *types.Func, src *Fu
 		if r := recover(); r != nil {
 			if u, isU := r.(unsupported); isU {
 				// fall back to havoc; discard partial effects
-				f.c.decls = f.c.decls[:nDecls]
+				_ = nDecls // declarations stay (harmless); function/constant registries refer to them
 				f.c.obls = f.c.obls[:nObls]
 				f.c.counters = savedCounters
 				f.c.note(fmt.Sprintf("not inlined: %s (%s)", funcKey(fn), u.msg))
